@@ -149,15 +149,28 @@ def neutralTail (ch : Bool) (op : BinOp) (l r : Arg) : Res (Bool × Arg) :=
   else if isBad r then .err (.badType r.ty op.argTy)
   else .ok (ch, neutralMain op l r)
 
-/-- `neutralize_raw`; note that the returned flag only reports the add/sub normalisation -/
+/-- the passes of `neutralize_raw` on a binary node (strip loop, sign normalisation, neutral elements); the returned
+flag only reports the add/sub normalisation -/
+def neutralizeBin (op : BinOp) (l r : Arg) : Res (Bool × Arg) :=
+  if op = .add ∨ op = .sub then
+    match normAddSub (op = .sub) r with
+    | .ok (ch, isSub, r') => neutralTail ch (if isSub then .sub else .add) l r'
+    | .err e => .err e
+    | .panic => .panic
+  else neutralTail false op l r
+
+/-- `changed = true` (set by the swap at the top of `neutralize_raw`) -/
+def swapped : Res (Bool × Arg) → Res (Bool × Arg)
+  | .ok (_, a) => .ok (true, a)
+  | r => r
+
+/-- `neutralize_raw`: first the swap `-(l - r) ↦ r - l`, `0 - (l - r) ↦ r - l` (repair of K5: the negation of a difference
+is never kept, so that `evaluate` is idempotent), then the passes on the binary node -/
 def neutralizeRaw : Arg → Res (Bool × Arg)
-  | .bin op l r =>
-    if op = .add ∨ op = .sub then
-      match normAddSub (op = .sub) r with
-      | .ok (ch, isSub, r') => neutralTail ch (if isSub then .sub else .add) l r'
-      | .err e => .err e
-      | .panic => .panic
-    else neutralTail false op l r
+  | .neg (.bin .sub l r) => swapped (neutralizeBin .sub r l)
+  | .bin .sub (.const c) (.bin .sub l r) =>
+    if c = 0 then swapped (neutralizeBin .sub r l) else neutralizeBin .sub (.const c) (.bin .sub l r)
+  | .bin op l r => neutralizeBin op l r
   | a => .ok (false, a)
 
 /-! ## `neutralize` -/
@@ -179,7 +192,11 @@ def neutralize : Arg → Res (Bool × Arg)
     | .panic => .panic
   | .neg v =>
     match neutralize v with
-    | .ok (c, v') => .ok (c, .neg v')     -- `neutralize_raw` of a non-binary node is `Ok(false)`
+    | .ok (c, v') =>
+      match neutralizeRaw (.neg v') with     -- swaps `-(l - r)`
+      | .ok (c3, a) => .ok (c || c3, a)
+      | .err e => .err e
+      | .panic => .panic
     | .err e => .err e
     | .panic => .panic
   | .not v =>
